@@ -16,8 +16,8 @@ ASSUMPTIONS = [
     "an exception from pseudoboolencoding (operators the layer does not implement: '=' and non-clausal '>') counts as 'refused'; a refused constraint is not part of the posted set",
     "pysat (minisat22) is trusted as the satisfiability oracle for the extracted CNF; an empty clause is treated as unsatisfiable by the harness itself",
 ]
-CASES = {"quick": 20000, "thorough": 2000000}
-MIN_CASES = {"quick": 1200, "thorough": 30000}
+CASES = {"quick": 120000, "thorough": 2000000}
+MIN_CASES = {"quick": 25000, "thorough": 30000}
 REQUIRED_COUNTERS = ["assignments_checked", "solve_checked", "model_checked", "posted:clause", "posted:imply", "posted:amo_quadratic", "posted:amo_heule",
                      "posted:pb_plain", "posted:pb_decomposed", "op:>=", "op:<=", "op:>", "op:<", "op:=", "refused", "history_encodings"]
 VARS = ["x0", "x1", "x2", "x3", "x4", "x5", "x6", "x7", "x8", "x9"]
